@@ -26,9 +26,18 @@ def goenv():
     return e
 
 
-def sh(cmd, cwd=None, env=None, timeout=None, stdin=None):
-    p = subprocess.run(cmd, cwd=cwd, env=env, timeout=timeout, stdin=stdin,
-                       stdout=subprocess.PIPE, stderr=subprocess.STDOUT, text=True, errors="replace")
+def sh(cmd, cwd=None, env=None, timeout=None, stdin=None, mem_limit=None):
+    pre = None
+    if mem_limit:
+        import resource
+        def pre():
+            resource.setrlimit(resource.RLIMIT_AS, (mem_limit, mem_limit))
+    try:
+        p = subprocess.run(cmd, cwd=cwd, env=env, timeout=timeout, stdin=stdin, preexec_fn=pre,
+                           stdout=subprocess.PIPE, stderr=subprocess.STDOUT, text=True, errors="replace")
+    except subprocess.TimeoutExpired as e:
+        out = e.stdout.decode(errors="replace") if isinstance(e.stdout, bytes) else (e.stdout or "")
+        return 124, out + "\n[timeout after %ss]" % timeout
     return p.returncode, p.stdout
 
 
@@ -230,11 +239,14 @@ def split_cases(lines):
     return cases
 
 
-def run_impl(stream, ops_path, tag, timeout=3600):
+def run_impl(stream, ops_path, tag, timeout=1500):
     out, res = ops_path + f".{tag}.impl", ops_path + f".{tag}.resolved"
     env = goenv()
     env.setdefault("GOMEMLIMIT", "6GiB")
-    rc, txt = sh([HARNESS_BIN, "run", stream, "-in", ops_path, "-out", out, "-resolved", res], env=env, timeout=timeout)
+    # the real code runs in a child with an address-space cap: a ballooning allocation is then a
+    # crash of the child (reported with the op that caused it), not a dead machine
+    rc, txt = sh([HARNESS_BIN, "run", stream, "-in", ops_path, "-out", out, "-resolved", res], env=env, timeout=timeout,
+                 mem_limit=6 << 30)
     return rc, txt, out, res
 
 
@@ -407,14 +419,19 @@ def run_stream(prop_id, cfg, scfg, seed, tier, log, stats):
                         hist["token"][tok[1:]] += 1
             if len(st["samples"]) < 3 and ci < len(op_cases) and (ci % 97 == 5 or len(cases) < 6):
                 st["samples"].append({"ops": op_cases[ci][1][:12], "model_out": outs[:12]})
-        if crashed and not failures:
+        if crashed:
             failures.append((len(split_cases(impl)) - 1, len(impl), ["#crash"]))
-        if failures:
-            ci, li, dkeys = failures[0]
-            op_cases = split_cases(ops)
+        # one report per distinct failure signature (set of differing fields), first case of each
+        seen_sig = set()
+        op_cases = split_cases(ops)
+        for ci, li, dkeys in failures:
+            sig = ",".join(dkeys)
+            if sig in seen_sig or len(seen_sig) >= 4:
+                continue
+            seen_sig.add(sig)
             hdr, body = op_cases[ci] if 0 <= ci < len(op_cases) else ("#case -", [])
             tag = f"{prop_id}-{stream}"
-            if crashed:
+            if dkeys == ["#crash"]:
                 shrunk = body
                 bad, simpl, smodel, sres = True, ["#crash rc=%d: %s" % (rc, txt[-1500:])], [], []
             else:
@@ -423,7 +440,7 @@ def run_stream(prop_id, cfg, scfg, seed, tier, log, stats):
                 bad, simpl, smodel, sres = rerun_case(stream, hdr, shrunk, keys, tag)
             violations.append({
                 "kind": "failing-input", "stream": stream, "source": label, "case": hdr,
-                "differing_keys": dkeys, "n_failing_lines": len(failures),
+                "differing_keys": dkeys, "n_failing_lines": sum(1 for f in failures if ",".join(f[2]) == sig),
                 "ops": shrunk, "resolved": sres, "impl_out": simpl, "model_out": smodel,
                 "reproduced_after_shrink": bad,
                 "original_ops": body if len(body) <= 400 else body[:400],
